@@ -51,12 +51,21 @@ CHECKS['C03'] = dict(
          '(re)registration clears the record memos (replies reflect only the new state). The question-to-lookup map '
          '(_get_answer_strategies) is proved exact for every question type incl. ANY and the enumeration name, and '
          'known-answer suppression (DNSRRSet.suppresses) is proved to need a listed record of the same identity with '
-         'more than half the TTL. Not under contract in this build (stated in DESIGN.md): the per-strategy answer '
-         'builders (_add_pointer_answers/_add_address_answers/_answer_question), _add_answers_additionals and the '
-         'ServiceInfo record builders.',
-    design_ref='DESIGN.md section 4 C03',
+         'more than half the TTL. The answer builders are under contract too: _answer_question (dispatch: a SRV / TXT question is '
+         'answered with exactly the service\'s own memoised SRV / TXT record unless the querier lists it as known with more than half '
+         'its TTL), _add_pointer_answers (every offered pointer is <type> -> <instance> of a given service with its TTL and without '
+         'the cache-flush bit; every such pointer is offered unless known; its additionals are only that service\'s own SRV, TXT, '
+         'address and NSEC records), _add_service_type_enumeration_query_answers (one pointer per listed type, TTL 4500, unless '
+         'known), and the ServiceInfo record builders _dns_pointer/_dns_service/_dns_text (names, TTL or override, cache-flush class, '
+         'memo soundness incl. the name setter), and _add_address_answers (every offered record is an address record of the asked '
+         'type of a given service\'s host with the host TTL and the cache-flush bit, or the NSEC record of a service that has no '
+         'address of the asked A/AAAA type). Assumed, not verified: the address/NSEC record builders _dns_addresses, _dns_nsec, '
+         '_get_address_and_nsec_records (list comprehensions over ipaddress objects); completeness of the address answers is not '
+         'stated; "additionals never repeat an answer" is _add_answers_additionals, verified in the C11 check.',
+    design_ref='DESIGN.md section 4 C03 and 9',
     note='registered ServiceInfo objects have a server and are not mutated behind the registry; address memo lists '
-         'modelled by validity flags; functions listed as not under contract are outside the proof')
+         'modelled by validity flags; the address/NSEC record builders (_dns_addresses, _dns_nsec, '
+         '_get_address_and_nsec_records) enter by assumed contracts')
 CHECKS['C13'] = dict(
     text='Duplicate-question suppression is proved exact: QuestionHistory.suppresses is true iff the same question (by '
          'identity) was recorded at most 999 ms ago with known answers all contained in the present ones; recording and '
@@ -186,7 +195,9 @@ CHECKS['C17'] = dict(
          'remove_all_service_listeners and the effect of closing transports are assumed (ghost flags); packets() and '
          'async_send_with_transport abstracted')
 CHECKS['C18'] = dict(
-    text='Seven functions of the lookup are under contract and verified for all caches, records and clocks: '
+    text='Ten functions of the lookup are under contract and verified for all caches, records and clocks (the last three - '
+         'ServiceInfo.async_update_records, get_ip_address_object_from_record, ip_bytes_and_scope_to_address - with "raises nothing": '
+         'a malformed or short address yields None, never an exception): '
          '_process_record_threadsafe: an expired record changes nothing; host/port/priority/weight change only from a live SRV record '
          'whose key is the instance\'s, TXT only from a live TXT record of it, addresses only from a live address record whose key is '
          'the host\'s (then that address is held and nothing else is added) or when a live SRV moves the host; no held address is '
@@ -286,13 +297,16 @@ CHECKS['C15'] = dict(
          'is contained is refuted on the tree before the F6 repair and replayed with a witness datagram. The decoder (total: C02), '
          'the record manager (C06), async_response and the reply builders (C11) and the reply queues (C12) enter through the contracts '
          'those checks verify. Oversized datagrams: frame obligation (nothing read or written above 8966 bytes). A call-graph scan lists '
-         'every function reached from datagram_received with the check that owns its contract; four answer builders of the query '
-         'handler are listed there as unverified surface. Bounded (labelled so): 2 x ~1500 hostile datagrams delivered natively in one '
+         'every function reached from datagram_received with the check that owns its contract. The functions of that path whose '
+         'contracts belong to other checks (decoder C02, record manager C06, cache C05, ServiceInfo listener and address helpers C18, '
+         'classification and queues C12, dispatch and reply builders C11, question history C13, strategies, answer builders and registry '
+         'lookups C03: 57 functions) are generated and discharged again inside this run (obligation ids C15/<function>/via-<owner>:...), '
+         'so a change inside any of them is reported by this check as well. Bounded (labelled so): 2 x ~1500 hostile datagrams delivered natively in one '
          'stream to a real listener with a registered service.',
     design_ref='DESIGN.md section 4 C15 and 9',
     note='valid_info precondition on registered services (their own records encode); transports do not raise into sendto; "keeps '
-         'working afterwards" = the invariants preserved in C03/C05/C06/C12, not a separate obligation; _answer_question and the three '
-         '_add_*_answers builders are not under contract (unverified surface); 2-tuple address form')
+         'working afterwards" = the invariants preserved in C03/C05/C06/C12, not a separate obligation; browser listeners '
+         '(C04) are on the path only when a browser is running and are not re-verified here; 2-tuple address form')
 NOT_APPLICABLE = {
     'C07': 'end-to-end liveness over several hosts and lossy delivery: no per-function contract can express it '
            '(DESIGN.md section 6)',
